@@ -94,6 +94,11 @@ fn array_member_of(text: &str, x: &str) -> bool {
     false
 }
 
+/// is the record X an argument of some template instantiation in the header (`<X>`, `<X, …>`, `<…, X>`)?
+fn template_arg_of(text: &str, x: &str) -> bool {
+    [format!("<{x}>"), format!("<{x},"), format!(", {x}>"), format!(", {x},"), format!(",{x}>")].iter().any(|p| text.contains(p.as_str()))
+}
+
 fn main() {
     let args = Args::parse();
     quiet_panics();
@@ -272,9 +277,10 @@ fn main() {
                             Some("packed_manual_impl_takes_reference")
                         } else if l.contains("E0277") && l.contains("doesn't implement `Debug`") && has("--impl-debug") && has("--no-debug") {
                             Some("impl_debug_member_without_debug")
-                        } else if l.contains("E0277") && l.contains("doesn't implement `Debug`") && has("--impl-debug") && stub_names.iter().any(|x| l.contains(&format!("`{x}`")) && array_member_of(&text, x)) {
-                            // input-defined: --impl-debug and a blocklisted record type is the element type of an array member
-                            Some("impl_debug_array_of_blocklisted")
+                        } else if l.contains("E0277") && l.contains("doesn't implement `Debug`") && has("--impl-debug") && stub_names.iter().any(|x| l.contains(&format!("`{x}`")) && (array_member_of(&text, x) || template_arg_of(&text, x))) {
+                            // input-defined: --impl-debug and a blocklisted record type is the element type of an array member or an
+                            // argument of a template instantiation used as a member
+                            Some("impl_debug_through_blocklisted")
                         } else if (l.contains("E0204") || (l.contains("E0277") && (l.contains(": Clone`") || l.contains(": Copy`")))) && text.contains("T arr[") {
                             Some("type_param_array_not_through_arrays")
                         } else if l.contains("E0588") && any_packed {
